@@ -308,6 +308,31 @@ Theorem C03_insertion_after_in_place_quantization_is_read_by_exactly_the_listed_
 Proof. exact insertion_after_inplace_readers. Qed.
 Print Assumptions C03_insertion_after_in_place_quantization_is_read_by_exactly_the_listed_operators.
 
+(* ... and, for the readers, with ANY earlier instructions in the tensor's list that
+   do not list a consumer of the insertion in question (`step_ok`: in-place
+   quantizations, and insertions whose consumer lists are disjoint from i0's —
+   a tensor feeding int8 and int16 operators gets one QUANTIZE per parameter set):
+   i0 is then never re-targeted, and its new tensor is read by exactly the
+   original operators it lists, at the slots where they read t in the input
+   model.  What is left unproved is only an insertion that IS re-targeted onto
+   the result of an earlier one (overlapping consumer lists). *)
+Theorem C03_insertion_that_is_not_retargeted_is_read_by_exactly_the_listed_operators :
+  forall m0 pre ti0 post m' k g0 steps i0,
+    Forall wf_sg (m_subgraphs m0) -> uids_ok m0 ->
+    (forall ti i, In ti (pre ++ ti0 :: post) -> In i (ti_insts ti) -> sane m0 (ti_sg ti) i) ->
+    ids_ok (pre ++ ti0 :: post) ->
+    nth_opt (m_subgraphs m0) k = Some g0 ->
+    ti_sg ti0 = Z.of_nat k -> ti_insts ti0 = steps ++ [i0] ->
+    Forall (step_ok (i_consumers i0)) steps ->
+    (i_trans i0 = Tr_ADD_QUANTIZE \/ i_trans i0 = Tr_ADD_DEQUANTIZE) ->
+    Forall (fun c => -1 <= c) (i_consumers i0) ->
+    never_names k (i_tensor i0) pre ->
+    transform_graph m0 (pre ++ ti0 :: post) = Ok m' ->
+    exists x' g', nth_opt (m_subgraphs m') k = Some g' /\ ntens g0 <= x' /\
+                  readers_profile x' g' = moved_profile (i_tensor i0) (i_consumers i0) g0.
+Proof. exact insertion_after_steps_readers. Qed.
+Print Assumptions C03_insertion_that_is_not_retargeted_is_read_by_exactly_the_listed_operators.
+
 (* non-vacuity: QUANTIZE inserted on the graph input of x --op--> y for consumer
    0: the new tensor 2 is read by the operator with uid 0 at slot 0 *)
 Example C03_inserted_readers_nonvacuous :
